@@ -174,7 +174,8 @@ class Expectation:
         return out
 
     def header_id(self, i):
-        return self.lfs[i]['hdr'].get('id', 'FILE-HEADER')
+        h = self.lfs[i]['hdr']
+        return h.get('id_later', h.get('id', 'FILE-HEADER'))
 
     def header_seq(self, i):
         return self.lfs[i]['hdr'].get('seq', 1)
